@@ -1,9 +1,9 @@
 SPECIFICATION Spec
 CONSTANTS
-  Titles = {"absent", "short"}
+  Titles = {"absent", "short", "nulend"}
   Years = {"absent", "text2008", "bin2008", "textempty", "textabc", "bin3", "bin0", "textutf", "textbad", "bin1", "bin5", "textmax", "textover", "text65536", "text007", "binmax", "bindigits", "int0", "int4", "binzero"}
   Posters = {"absent", "big"}
-  Summaries = {"absent", "utf8"}
+  Summaries = {"absent", "utf8", "nulend"}
   Unknowns = {"none", "between", "tiny", "named", "kids"}
   Shapes = {"mdir", "mdirqt", "mdta", "zero", "noilst", "noilstqt", "nometa", "noudta"}
   Hdrs = {"small", "data", "item", "all"}
